@@ -82,7 +82,8 @@ def shrink_dataset_case(case, keys=("dataset",)):
 
 
 def base_tags(case):
-    return ["family:" + case["meta"]["family"], "kind:" + case["meta"]["kind"], "scheme:" + case["scheme"]["family"].split(":")[0]]
+    return ["family:" + case["meta"]["family"], "kind:" + case["meta"]["kind"], "scheme:" + case["scheme"]["family"].split(":")[0]] + \
+        (["size:big"] if case["meta"].get("big") else [])
 
 
 # ----------------------------------------------------------------------------------------------
